@@ -5,12 +5,12 @@ tag=$1; shift
 for id in "$@"; do
   dirs=""
   for v in A B; do
-    [ -f /tmp/wtout/$id/$v/patch.diff ] || { echo "$id $v: no patch"; continue; }
-    if SEED_TAG=$tag python3 /verif/tools/confirm_seed.py $id $v > /tmp/wtout/$id/$v/confirm.log 2>&1; then
+    [ -f ${SEED_SRC:-/tmp/wtout}/$id/$v/patch.diff ] || { echo "$id $v: no patch"; continue; }
+    if SEED_TAG=$tag python3 /verif/tools/confirm_seed.py $id $v > ${SEED_SRC:-/tmp/wtout}/$id/$v/confirm.log 2>&1; then
       dirs="$dirs /verif/seeded/$id-$tag$v"
     else
-      echo "$id $v: NOT CONFIRMED"; grep -E 'FAIL|PASSES' /tmp/wtout/$id/$v/confirm.log | head -5
+      echo "$id $v: NOT CONFIRMED"; grep -E 'FAIL|PASSES' ${SEED_SRC:-/tmp/wtout}/$id/$v/confirm.log | head -5
     fi
   done
-  [ -n "$dirs" ] && SEED_MATRIX=/tmp/wtout/$id/matrix.md python3 /verif/tools/seedmatrix2.py -j 2 $dirs 2>&1 | grep -v WARNING
+  [ -n "$dirs" ] && SEED_MATRIX=${SEED_SRC:-/tmp/wtout}/$id/matrix.md python3 /verif/tools/seedmatrix2.py -j 2 $dirs 2>&1 | grep -v WARNING
 done
